@@ -16,6 +16,28 @@
 #define MAXPATH	64
 
 static int nid;
+static int rendering;	/* how a model line identity becomes text */
+
+/*
+ * rendering 0: "L<id>"                      every line distinct
+ * rendering 1: 'x' repeated (9 - id) times  later lines are proper prefixes of earlier ones
+ * rendering 2: "a" / "b" by parity          many identical lines
+ * The last line of an inserted block is passed without its newline in renderings 1 and 2
+ * (lbuf_replace() supplies it).
+ */
+static void linetext(char *dst, int id)
+{
+	int i;
+	if (rendering == 1) {
+		for (i = 0; i < 9 - id && i < 20; i++)
+			dst[i] = 'x';
+		dst[i < 0 ? 0 : i] = '\0';
+	} else if (rendering == 2) {
+		sprintf(dst, "%c", id % 2 ? 'a' : 'b');
+	} else {
+		sprintf(dst, "L%d", id);
+	}
+}
 
 static int rd(void)
 {
@@ -43,8 +65,11 @@ static int apply(int *op)
 	switch (op[1]) {
 	case 1:		/* edit beg end k nonnull */
 		text[0] = '\0';
-		for (i = 0; i < op[4]; i++)
-			sprintf(text + strlen(text), "L%d\n", nid++);
+		for (i = 0; i < op[4]; i++) {
+			linetext(text + strlen(text), nid++);
+			if (!rendering || i + 1 < op[4])
+				strcat(text, "\n");
+		}
 		lbuf_edit(xb, op[5] ? text : NULL, op[2], op[3]);
 		return 0;
 	case 2:
@@ -75,7 +100,7 @@ static void printop(int *op)
 	printf("]");
 }
 
-int main(void)
+int main(int argc, char *argv[])
 {
 	static int path[MAXPATH][MAXOP + 1];
 	int op[MAXOP + 1];
@@ -83,6 +108,7 @@ int main(void)
 	char *files[] = {NULL};
 	long transitions = 0, mismatch = 0, states = 0;
 	int c;
+	rendering = argc > 1 ? atoi(argv[1]) : 0;
 	dir_init();
 	syn_init();
 	if (ex_init(files))
@@ -113,8 +139,9 @@ int main(void)
 			if (lbuf_len(xb) != nl)
 				bad = 1;
 			for (k = 0; !bad && k < nl; k++) {
-				char want[32];
-				sprintf(want, "L%d\n", exp[k]);
+				char want[64];
+				linetext(want, exp[k]);
+				strcat(want, "\n");
 				if (!lbuf_get(xb, k) || strcmp(want, lbuf_get(xb, k)))
 					bad = 1;
 			}
